@@ -2,7 +2,11 @@
 
 package y
 
-import "github.com/dgraph-io/ristretto/v2/z"
+import (
+	"time"
+
+	"github.com/dgraph-io/ristretto/v2/z"
+)
 
 // Verification hooks for WaterMark (build tag verif only). They only talk to the production
 // process goroutine through the production mark channel.
@@ -14,6 +18,28 @@ func (w *WaterMark) VerifBarrier() {
 	ch := make(chan struct{})
 	w.markCh <- mark{index: 0, waiter: ch}
 	<-ch
+}
+
+// VerifBarrierTimeout is VerifBarrier that gives up after d (twice: once for the send, once for
+// the answer) and reports whether the barrier was answered. A false result means the process
+// goroutine is gone, stuck, or does not release a waiter for index 0.
+func (w *WaterMark) VerifBarrierTimeout(d time.Duration) bool {
+	ch := make(chan struct{})
+	t := time.NewTimer(d)
+	defer t.Stop()
+	select {
+	case w.markCh <- mark{index: 0, waiter: ch}:
+	case <-t.C:
+		return false
+	}
+	t2 := time.NewTimer(d)
+	defer t2.Stop()
+	select {
+	case <-ch:
+		return true
+	case <-t2.C:
+		return false
+	}
 }
 
 // VerifWaitRaw sends the waiter mark that WaitForMark sends after its fast path and returns
